@@ -3,7 +3,7 @@ From Coq Require Import NArith List Bool.
 Import ListNotations.
 From DV Require Import Base.Outcome C18.Gen C18.Model C18.Proofs C18.ProofsEnc C18.ProofsSpec
   C18.ProofsDec64 C18.ProofsDec32 C18.ProofsApi C18.ProofsApi2 C18.ProofsConv C18.ProofsPostFix
-  C18.ProofsCap C18.ProofsGrammar C18.ProofsUsers C18.ProofsScan2 C18.ModelName C18.ProofsAgree C18.ProofsName.
+  C18.ProofsCap C18.ProofsGrammar C18.ProofsUsers C18.ProofsScan2 C18.ModelName C18.ProofsAgree C18.ProofsName C18.ProofsW.
 Local Open Scope N_scope.
 
 Theorem C18_encode_tables_are_rfc4648 :
@@ -439,3 +439,80 @@ Theorem C18_b32_display_into_writer : forall bs room, octets bs ->
       else ((firstn (N.to_nat room) (spec_enc32 bs), 0), false)).
 Proof. exact b32_display_into_writer. Qed.
 Print Assumptions C18_b32_display_into_writer.
+
+(* ---- round 5 widening (ProofsW) ---- *)
+
+Theorem C18_b32_rejects_iff_not_grammar : forall s,
+  (exists e, b32_decode s = Err e) <-> ~ wf_unpadded 5 val32 s.
+Proof. exact b32_rejects_iff_not_grammar. Qed.
+Print Assumptions C18_b32_rejects_iff_not_grammar.
+
+Theorem C18_b16_rejects_iff_not_grammar : forall s,
+  (exists e, b16_decode s = Err e) <-> ~ wf_unpadded 4 val16 s.
+Proof. exact b16_rejects_iff_not_grammar. Qed.
+Print Assumptions C18_b16_rejects_iff_not_grammar.
+
+Theorem C18_encoders_injective : forall a b, octets a -> octets b ->
+  (b64_display a = b64_display b -> a = b) /\
+  (b32_display a = b32_display b -> a = b) /\
+  (b16_display a = b16_display b -> a = b).
+Proof. exact encoders_injective. Qed.
+Print Assumptions C18_encoders_injective.
+
+Theorem C18_encoded_is_wellformed : forall bs, octets bs ->
+  (exists t, b64_display bs = Ok t /\ wf64 t /\ octets64 t = bs) /\
+  (exists t, b32_display bs = Ok t /\ wf_unpadded 5 val32 t /\ octets_unpadded 5 val32 t = bs) /\
+  (exists t, b16_display bs = Ok t /\ wf_unpadded 4 val16 t /\ octets_unpadded 4 val16 t = bs).
+Proof. exact encoded_is_wellformed. Qed.
+Print Assumptions C18_encoded_is_wellformed.
+
+Theorem C18_push_chunks_independent : forall chunks,
+  (forall sticky d, b64_run_with sticky d (concat chunks) = runs_list (b64_run_with sticky) d chunks) /\
+  (forall d, b32_run d (concat chunks) = runs_list b32_run d chunks) /\
+  (forall d, b16_run d (concat chunks) = runs_list b16_run d chunks).
+Proof. exact push_chunks_independent. Qed.
+Print Assumptions C18_push_chunks_independent.
+
+Theorem C18_push_rechunk_independent : forall c1 c2, concat c1 = concat c2 ->
+  (forall sticky d, runs_list (b64_run_with sticky) d c1 = runs_list (b64_run_with sticky) d c2) /\
+  (forall d, runs_list b32_run d c1 = runs_list b32_run d c2) /\
+  (forall d, runs_list b16_run d c1 = runs_list b16_run d c2).
+Proof. exact push_rechunk_independent. Qed.
+Print Assumptions C18_push_rechunk_independent.
+
+Theorem C18_decode_not_injective :
+  (exists s1 s2 bs, s1 <> s2 /\ b64_decode s1 = Ok bs /\ b64_decode s2 = Ok bs) /\
+  (exists s1 s2 bs, s1 <> s2 /\ b32_decode s1 = Ok bs /\ b32_decode s2 = Ok bs) /\
+  (exists s1 s2 bs, s1 <> s2 /\ b16_decode s1 = Ok bs /\ b16_decode s2 = Ok bs).
+Proof. exact decode_not_injective. Qed.
+Print Assumptions C18_decode_not_injective.
+
+Theorem C18_decode_yields_octets : forall s bs,
+  (b64_decode s = Ok bs -> octets bs) /\ (b32_decode s = Ok bs -> octets bs) /\
+  (b16_decode s = Ok bs -> octets bs).
+Proof. exact decode_yields_octets. Qed.
+Print Assumptions C18_decode_yields_octets.
+
+Theorem C18_decode_reencode : forall s bs,
+  (b64_decode s = Ok bs -> exists t, b64_display bs = Ok t /\ b64_decode t = Ok bs) /\
+  (b32_decode s = Ok bs -> exists t, b32_display bs = Ok t /\ b32_decode t = Ok bs) /\
+  (b16_decode s = Ok bs -> exists t, b16_display bs = Ok t /\ b16_decode t = Ok bs).
+Proof. exact decode_reencode. Qed.
+Print Assumptions C18_decode_reencode.
+
+Theorem C18_decoded_length_unpadded : forall s bs,
+  (b32_decode s = Ok bs -> length bs = Nat.div (Nat.mul 5 (length s)) 8 /\ lt (Nat.modulo (Nat.mul 5 (length s)) 8) 5) /\
+  (b16_decode s = Ok bs -> length s = Nat.mul 2 (length bs)).
+Proof. exact decoded_length_unpadded. Qed.
+Print Assumptions C18_decoded_length_unpadded.
+
+Theorem C18_encoded_length_unpadded : forall bs t, octets bs ->
+  (b32_display bs = Ok t -> length t = Nat.div (Nat.add (Nat.mul 8 (length bs)) 4) 5) /\
+  (b16_display bs = Ok t -> length t = Nat.mul 2 (length bs)).
+Proof. exact encoded_length_unpadded. Qed.
+Print Assumptions C18_encoded_length_unpadded.
+
+Theorem C18_b64_decoded_length : forall s bs, b64_decode s = Ok bs ->
+  Nat.modulo (length s) 4 = O /\ length bs = Nat.div (Nat.mul 6 (length (data64 s))) 8.
+Proof. exact b64_decoded_length. Qed.
+Print Assumptions C18_b64_decoded_length.
